@@ -247,4 +247,7 @@ MUTANTS = [
  dict(id="C15", name="old_value_sent_with_the_new_values_type", edits=[(UH, "    const char  types[2] = {rtosc_type(msg, arg_idx), 0};\n", "    const char  types[2] = {rtosc_type(msg, 2), 0};\n")]),
  dict(id="C02", name="size_summed_in_32_bits", edits=[(RC, "    size_t pos = 0; //(the sum can exceed 32 bits: blobs need no data)\n", "    unsigned pos = 0;\n")]),
  dict(id="C02", name="buffer_size_is_the_ring_size", edits=[(TL, "size_t ThreadLink::buffer_size(void) const {return MaxMsg;}", "size_t ThreadLink::buffer_size(void) const {return BufferSize;}")]),
+ dict(id="C14", name="rparam_defaults_before_declared_range", edits=[(PS, 'rProp(parameter) rDefaultProps DOC(__VA_ARGS__) rMap(min, 0) rMap(max, 127), NULL, rParamCb(name)}', 'rProp(parameter) rDefaultProps rMap(min, 0) rMap(max, 127) DOC(__VA_ARGS__), NULL, rParamCb(name)}')]),
+ dict(id="C14", name="index_read_with_atoi", edits=[("src/dispatch.c", "    unsigned long val = strtoul(*msg, NULL, 10);\n", "    unsigned val = atoi(*msg);\n")]),
+ dict(id="C14", name="location_appended_unbounded", edits=[(PC, "                                          : strlen(port.name)) >= loc_left)\n                    continue;", "                                          : strlen(port.name)) >= loc_left + 100000)\n                    continue;"), (PC, "                                    : impl->fixed[port_num].length()) >= loc_left)\n                    return;", "                                    : impl->fixed[port_num].length()) >= loc_left + 100000)\n                    return;")]),
 ]
